@@ -528,7 +528,7 @@ def norm_reason(r):
     import re
     r = re.sub(r"'[^']*'", "'_'", r)
     r = re.sub(r'\d+', 'N', r)
-    return r[:80]
+    return r[:80].replace('|', '/')
 
 
 def key_b(tplname, conv, mname, label, detail):
@@ -687,6 +687,7 @@ def a_level(tier, vdev, odev):
 def run_a(ctx, tier, seed, chunk, chunks, acc):
     optsets = option_sets(2)
     sampled = 0
+    found = Found()
     for inst in instances_of(ctx, chunk, chunks, VALDEV):
         xml = inst.xml(False)[0]
         if not ctx.schema.is_valid(xml):
@@ -708,18 +709,20 @@ def run_a(ctx, tier, seed, chunk, chunks, acc):
                 with acc.guard(30):
                     discs = eval_a(inst, conv, optset, acc)
                 for key, what in discs:
-                    acc.disc(key, what, {'part': 'a', 'tpl': ctx.tpl['name'], 'skel': inst.skel, 'dev': inst.dev,
-                                         'conv': conv, 'opts': list(optset)})
+                    found.add(acc, key, what, {'part': 'a', 'tpl': ctx.tpl['name'], 'skel': inst.skel,
+                                               'dev': inst.dev, 'conv': conv, 'opts': list(optset)})
         if sampled < 1 and chunk == 0 and inst.dev != '-':
             sampled += 1
             acc.sample({'part': 'a', 'template': ctx.tpl['name'], 'words': inst.skel, 'deviations': inst.dev,
                         'xml': xml, 'decoded (default converter)': short(decode(ctx, xml, 'default', {}, {}))})
+    found.flush(acc)
 
 
 def run_b(ctx, tier, seed, chunk, chunks, acc):
     bs = b_space(tier)
     seen = {}
     sampled = 0
+    found = Found()
     for inst in instances_of(ctx, chunk, chunks, bs['valdev']):
         xml = inst.xml(False)[0]
         if not ctx.schema.is_valid(xml):
@@ -736,21 +739,43 @@ def run_b(ctx, tier, seed, chunk, chunks, acc):
                     continue
                 pairs = bool(bs['pairs_nodes']) and not optset and inst.dev == '-' and nodes <= bs['pairs_nodes']
                 with acc.guard(600):
-                    found = eval_b(inst, conv, optset, None, acc, seen, pairs)
-                for key, what, descs in found:
-                    acc.disc(key, what, {'part': 'b', 'tpl': ctx.tpl['name'], 'skel': inst.skel, 'dev': inst.dev,
-                                         'conv': conv, 'opts': list(optset), 'chain': descs})
+                    bad = eval_b(inst, conv, optset, None, acc, seen, pairs)
+                for key, what, descs in bad:
+                    found.add(acc, key, what, {'part': 'b', 'tpl': ctx.tpl['name'], 'skel': inst.skel,
+                                               'dev': inst.dev, 'conv': conv, 'opts': list(optset), 'chain': descs})
                 if sampled < 1 and chunk == 0 and conv == 'default' and not optset:
                     sampled += 1
                     acc.sample({'part': 'b', 'template': ctx.tpl['name'], 'xml': xml,
                                 'mutations of the default-converter datum': sum(
                                     1 for _ in mutations(decode(ctx, xml, 'default', {}, {})))})
+    found.flush(acc)
+
+
+def witness_order(case):
+    return (len(case['opts']), case['opts'], len(case['skel']), case['skel'], len(case['dev']), case['dev'],
+            str(case.get('chain')))
+
+
+class Found:
+    """Discrepancies of one shard: one (smallest) witness per key, every occurrence counted."""
+
+    def __init__(self):
+        self.best = {}
+
+    def add(self, acc, key, what, case):
+        acc.cnt('discrepant evaluations (part %s)' % case['part'])
+        old = self.best.get(key)
+        if old is None or witness_order(case) < witness_order(old[1]):
+            self.best[key] = (what, case)
+
+    def flush(self, acc):
+        for key in sorted(self.best):
+            acc.disc(key, self.best[key][0], self.best[key][1])
 
 
 def finish(tier, seed, acc):
-    """Deterministic witness per key: the smallest recorded case."""
-    acc.discs.sort(key=lambda d: (d[0], len(d[2]['opts']), d[2]['opts'], len(d[2]['skel']), d[2]['skel'],
-                                  len(d[2]['dev']), d[2]['dev'], str(d[2].get('chain'))))
+    """Deterministic witness per key across shards: the smallest recorded case."""
+    acc.discs.sort(key=lambda d: (d[0], witness_order(d[2])))
 
 
 def replay(case):
